@@ -211,6 +211,16 @@ func runC05(args []string) error {
 			return err
 		}
 	}
+	// many recovery blocks on a small set (the volume layout beyond 128 / 256 / 512 blocks): cheap for Create and for TLC
+	for _, r := range []int{192 + rng.Intn(60), 256 + rng.Intn(3), 300 + rng.Intn(212), 513} {
+		d1 := make([]byte, 9+rng.Intn(20))
+		d2 := make([]byte, 4+rng.Intn(8))
+		rng.Read(d1)
+		rng.Read(d2)
+		if err := createAndObserve(lg, dir, []string{"m.bin", "n/o.bin"}, [][]byte{d1, d2}, 4, r, 1+rng.Intn(3), fmt.Sprintf("many recovery blocks r=%d", r), nil, budget); err != nil {
+			return err
+		}
+	}
 	// a coding coefficient 0xffff (Const(152)^75): 160 slices, 80 recovery blocks, once with slices shorter
 	// than a SIMD block (scalar kernels) and once with one SIMD block plus a scalar tail; every word judged
 	for _, s := range []int{4, 36} {
